@@ -186,7 +186,8 @@ class Run:
             self.run_slice(S, sl, findings)
         try:
             if hasattr(prop, 'ENGINE_B') and not self.violations:
-                self.engine_b_phase(S, prop.ENGINE_B)
+                cfgs = prop.ENGINE_B if isinstance(prop.ENGINE_B, list) else [prop.ENGINE_B]
+                for cfg in cfgs: self.engine_b_phase(S, cfg)
         finally:
             S.close()
         return self.finish()
@@ -221,7 +222,7 @@ class Run:
                 if g: nxt.append(g)
             order = nxt
         chosen = (fixed + spread)[:K * (8 if cfg.get('accept') else 1)]
-        work = os.path.join(os.path.dirname(S.art['dir']), 'kani', self.prop.ID)
+        work = os.path.join(os.path.dirname(S.art['dir']), 'kani', self.prop.ID + '-' + cfg['template'])
         os.makedirs(work, exist_ok=True)
         ws = []; t0 = time.time()
         info = {'witnesses': 0, 'harnesses': 0, 'verified': 0, 'failed': [], 'seconds': 0, 'kinds': cfg['kinds'], 'abi_checked': 0}
@@ -246,7 +247,9 @@ class Run:
         crate, names = B.build_crate(work, ws, kinds=cfg['kinds'])
         r = B.run_kani(crate, names)
         info.update(witnesses=len(ws), harnesses=len(names), seconds=r['seconds'], verified=r['summary']['ok'], failed=r['summary']['failed'])
-        self.engine_b = info
+        if self.engine_b is None: self.engine_b = []
+        info['template'] = cfg['template']
+        self.engine_b.append(info)
         print('  engine B: %d witness programs, %d harnesses, %d verified, failed=%s, %.1fs' % (len(ws), len(names), r['summary']['ok'], r['summary']['failed'], r['seconds']), flush=True)
         if r['compile_error']:
             # code emitted by pyxis (or the generated harness) does not compile: decide which
